@@ -13,7 +13,7 @@ def _qsl(items):
 def record(u, **kw):
     import importlib
     mod = importlib.import_module("ural.canonicalize_url")     # (ural.canonicalize_url the attribute is the function)
-    events = [{"kind": "call", "u": enc(u)}]
+    events = [{"kind": "call", "u": enc(u), "dp": enc(kw.get("default_protocol", "https"))}]
     saved = {}
 
     def wrap(name, fn):
